@@ -179,3 +179,46 @@ theorem descendant_capacity_refuted :
      | .error _ => false) = true := by decide
 
 end Nri.TA
+
+namespace Nri.TA
+
+/-- capacity of pool `j` that is still unpromised: 1000 mCPU per CPU of its free shared set minus everything granted in its subtree -/
+def ownShared (t : TA) (j : Nat) : Int := 1000 * ((t.pools j).sharable.length : Int) - subtreeShared t j
+
+theorem foldl_min_le (own : Nat → Int) (l : List Nat) : ∀ (m0 : Int),
+    l.foldl (fun m a => if own a < m then own a else m) m0 ≤ m0 ∧
+    ∀ a ∈ l, l.foldl (fun m a => if own a < m then own a else m) m0 ≤ own a := by
+  induction l with
+  | nil => intro m0; exact ⟨Int.le_refl _, fun _ h => by cases h⟩
+  | cons x xs ih =>
+    intro m0
+    simp only [List.foldl_cons]
+    obtain ⟨h1, h2⟩ := ih (if own x < m0 then own x else m0)
+    constructor
+    · by_cases hx : own x < m0
+      · simp only [hx, if_true] at h1 ⊢; omega
+      · simp only [hx, if_false] at h1 ⊢; exact h1
+    · intro a ha
+      rcases List.mem_cons.mp ha with e | e
+      · subst e
+        by_cases hx : own a < m0
+        · simp only [hx, if_true] at h1 ⊢; exact h1
+        · simp only [hx, if_false] at h1 ⊢; omega
+      · exact h2 a e
+
+/-- `AllocatableSharedCPU` of a pool never exceeds the unpromised capacity of the pool itself nor of any of its ancestors -/
+theorem allocatable_le_own (t : TA) (i : Nat) :
+    allocatableShared t i ≤ ownShared t i ∧ ∀ a ∈ ancestors t.tree t.tree.length i, allocatableShared t i ≤ ownShared t a := by
+  unfold allocatableShared ownShared
+  exact foldl_min_le (fun j => 1000 * ((t.pools j).sharable.length : Int) - subtreeShared t j) _ _
+
+/-- **Capacity at grant time, up the whole chain.** A shared portion is admitted only if it fits the unpromised
+capacity of the granting pool and of EVERY ancestor up to the root - whatever the tree, state and request. -/
+theorem portion_within_every_ancestor (t2 t' : TA) (ctr : String) (i fraction : Nat) (excl : List Nat) (g : Grant)
+    (hf : 0 < fraction) (h : addPortion t2 ctr i fraction .normal excl = .ok (t', g)) :
+    (fraction : Int) ≤ ownShared t2 i ∧ ∀ a ∈ ancestors t2.tree t2.tree.length i, (fraction : Int) ≤ ownShared t2 a := by
+  obtain ⟨hle, _⟩ := portion_within_capacity t2 t' ctr i fraction excl g hf h
+  obtain ⟨h1, h2⟩ := allocatable_le_own t2 i
+  exact ⟨by omega, fun a ha => by have := h2 a ha; omega⟩
+
+end Nri.TA
